@@ -156,12 +156,20 @@ func c08(args []string) int {
 		"cmd/alpha/main.go": asPkg(c08B, "b", "main") + "\nfunc main() {}\n", "cmd/beta/main.go": asPkg(c08A2, "a", "main") + "\nfunc main() {}\n",
 		"x/util/util.go": asPkg(c08A2, "a", "util"), "y/util/util.go": asPkg(c08B, "b", "util"), "z/util/util.go": asPkg(c08A, "a", "util"),
 		"x/util/util_test.go": asPkg(c08ATest, "a", "util"), "y/util/util_test.go": asPkg(c08ATest, "a", "util")}
+	// package boundary: the last file of one package imports what the first, import-free file of the next
+	// package declares as local names (the CLI walks all packages through one shared context)
+	workspaces["boundary"] = map[string]string{"go.mod": "module w\n\ngo 1.21\n",
+		"alpha/alpha.go": "package alpha\n\nimport (\n\t\"fmt\"\n\t\"os\"\n\t\"path/filepath\"\n\t\"strings\"\n)\n\nfunc A(s string) string {\n\tfmt.Println(os.Args, filepath.Base(s))\n\treturn strings.ToUpper(s)\n}\n",
+		"beta/beta.go":   "package beta\n\nfunc B(n int) int {\n\tfmt, os, filepath, strings := n, n+1, n+2, n+3\n\treturn fmt + os + filepath + strings\n}\n",
+		"gamma/gamma.go": "package gamma\n\nimport \"sort\"\n\nfunc G(xs []int, fmt int) int {\n\tsort.Ints(xs)\n\tstrings := fmt\n\treturn strings\n}\n",
+		"delta/a.go":     "package delta\n\nfunc D(sort, os int) int { return sort + os }\n",
+		"delta/b.go":     "package delta\n\nimport \"os\"\n\nfunc E() []string { return os.Args }\n"}
 	for name, files := range workspaces {
 		writeTree(filepath.Join(base, name), files)
 	}
 	workspaces["files"] = map[string]string{"go.mod": "module w\n\ngo 1.21\n", "a/a.go": c08A, "a/a2.go": c08A2, "b/b.go": c08B}
 	writeTree(filepath.Join(base, "files"), workspaces["files"])
-	targets := map[string][]string{"samenames": {"./..."}, "single": {"./..."}, "intests": {"./..."}, "exttests": {"./..."}, "three": {"./..."}, "files": {"./a/a.go", "./a/a2.go"}}
+	targets := map[string][]string{"boundary": {"./..."}, "samenames": {"./..."}, "single": {"./..."}, "intests": {"./..."}, "exttests": {"./..."}, "three": {"./..."}, "files": {"./a/a.go", "./a/a2.go"}}
 	var cfgs []c08Cfg
 	cfgs = append(cfgs,
 		c08Cfg{"default", nil, nil},
@@ -192,10 +200,10 @@ func c08(args []string) int {
 	results := map[string]map[string]*result{} // ws|cfg -> fe -> result
 	var wg sync.WaitGroup
 	sem := make(chan struct{}, 12)
-	wsNames := []string{"single", "intests", "exttests", "three", "files", "samenames"}
+	wsNames := []string{"single", "intests", "exttests", "three", "files", "samenames", "boundary"}
 	for _, wsn := range wsNames {
 		for ci, c := range cfgs {
-			if tier == "quick" && wsn != "three" && wsn != "exttests" && wsn != "samenames" && ci >= 9 && ci%3 != 0 {
+			if tier == "quick" && wsn != "three" && wsn != "exttests" && wsn != "samenames" && wsn != "boundary" && ci >= 9 && ci%3 != 0 {
 				continue
 			}
 			for _, fe := range fes {
@@ -314,7 +322,7 @@ func c08(args []string) int {
 	c08InProcess(ev)
 
 	ev.Sample(map[string]interface{}{"workspace": "three packages with in-package tests", "config": "-enable=#style,hugeParam -disable=assignOp", "binaries": fes, "oracle": "identical sets of (file,line,col,checker,message), each exactly once"})
-	ev.Set("rule", "6 workspaces (single package; in-package tests; external tests; three packages; explicit file arguments; packages sharing package names and file base names) x configurations expressible in both flag dialects (default, enable-all, -go versions, 8 enable/disable list pairs, every checker parameter at a non-default value) x the 4 real binaries; go-critic is the reference. non-trivial = configuration with at least one diagnostic")
+	ev.Set("rule", "7 workspaces (single package; in-package tests; external tests; three packages; explicit file arguments; packages sharing package names and file base names; packages whose first file has no imports and declares locals named like the previous package's imports) x configurations expressible in both flag dialects (default, enable-all, -go versions, 8 enable/disable list pairs, every checker parameter at a non-default value) x the 4 real binaries; go-critic is the reference. non-trivial = configuration with at least one diagnostic")
 	return ev.Finish()
 }
 
